@@ -220,6 +220,15 @@ func specialisedRows(tier string, rng *rand.Rand) ([]*parseRow, map[string]inter
 	for _, sp := range [][2]string{{"0", ""}, {"", "00"}, {"00", "0"}} {
 		add(fmt.Sprintf("di28#spelled-defs=%q-refs=%q", sp[0], sp[1]), respell(renderDI(defs, nil, 5), sp[0], sp[1]))
 	}
+	// the same module with every ID moved up to a boundary of the ID scale (a table of small IDs, a 16-bit cast,
+	// the end of TLC's integers); the attachment sites are not prescribed for these (only identity is judged there)
+	for _, off := range []int64{1000, 65520, 1<<30 - 20} {
+		text := reindex(renderDI(defs, nil, 7), off)
+		if ok, diag := llvmoracle.Accepts(text); !ok {
+			mbt.Infra("llvm-as rejects the specialised-node module with IDs moved up by %d: %s", off, diag)
+		}
+		rows = append(rows, &parseRow{Src: "text", Want: wantFromText(text), text: text, name: fmt.Sprintf("di28#ids-moved-up-by-%d", off), freeSites: true})
+	}
 	rows = append(rows, positionRows(defs)...)
 	// hand-written texts with less usual field shapes (references through generic fields,
 	// self-referencing composite, inline specialised nodes inside fields, nested inline tuples)
